@@ -302,9 +302,9 @@ pub fn world_b_extra(stats: &Stats) -> Json {
         "executions": stats.c.get("executions"),
         "distinct_interleavings": stats.distinct(),
         "components": {
-            "real": ["rsass parser, evaluator, Context, CssData, built-in function modules (hooked build, --cfg kaj_rsass_verif)", "arc_swap, fastrand (seeded per execution), nom"],
-            "stub": ["std::sync::{Mutex, LazyLock, Once} inside rsass -> shuttle models via the rsass_verif_sync shim", "OS threads and scheduler -> shuttle tasks under a seeded Random/PCT scheduler", "Loader -> in-memory loader with the spec test-runner's lookup rules, optional sleep(0) scheduling point per lookup"],
-            "not_run": ["rsass-cli", "FsLoader"],
+            "real": ["rsass parser, evaluator, Context, CssData, built-in function modules (instrumented copy made by tools/instrument.py, shims in shuttle mode, --cfg kaj_rsass_verif)", "arc_swap, fastrand (seeded per execution), nom", "every 8th execution: a new OS process of its own (statics with const initialisers in their initial state)"],
+            "stub": ["every std::sync / std::thread / thread_local! use inside rsass (Mutex, RwLock, atomics, Once, OnceLock, LazyLock, Condvar, thread-locals) -> shuttle models via the rsass_verif_sync shim; LazyLock/OnceLock values are per execution and never dropped", "OS threads and scheduler -> shuttle tasks under a seeded Random/PCT scheduler", "std::time -> settable clock, drawn per execution", "Loader -> in-memory loader with the spec test-runner's lookup rules, optional sleep(0) scheduling point per lookup"],
+            "not_run": ["rsass-cli", "FsLoader / CargoLoader (world A)"],
         },
     })
 }
